@@ -189,6 +189,8 @@ GENERIC_RULES = [
     {"flags": ["-O"], "action": "append", "vals": ["2", "3", "fast"]}, {"flags": ["-o"], "action": "append", "vals": ["a.o"]},
     {"flags": ["-g"], "action": "append_const"}, {"flags": ["-c"], "action": "append_const"},
 ]
+UNKNOWN_FLAGS = ["-Wall", "-Wextra", "-std=c++17", "-fPIC", "-pthread", "-MMD", "-march=native", "--expt-relaxed-constexpr",
+                 "-x", "-w", "-pipe", "-Werror=foo", "-ffast-math", "--std=c++14", "-qopenmp", "-Xcompiler", "-m64", "-"]
 MALFORMED = ["-f", "-fopen", "-fopenmp=libomp", "-D", "--", "-gD", "-g3", "-1", "- x", "", "-", "--gpu", "-fsycl-targets",
              "-DA=1", "-I=x", "-cg", "-gc", "-gDX", "-1.5", "-fa=", "--long=", "-fab", "-fa", "--lon", "-isys", "-inc", "-i",
              "-O", "-x c", "--gpu-code", "-fsycl=1", "-cfa", "-m=", "-Dq", "-qD"]
@@ -221,6 +223,8 @@ def gen_argv(rng, user, malformed=False):
             out.append(rng.choice(MALFORMED))
         elif r < 0.15:
             out.append(rng.choice(["a.c", "src/b.cpp", "x.o"]))
+        elif r < 0.30:
+            out.append(rng.choice(UNKNOWN_FLAGS))
         else:
             out += gen_tokens(rng, rules, tame=not malformed)
     return out
@@ -348,6 +352,35 @@ def alias_cases():
     return cases
 
 
+_memo_installed = False
+
+
+def _memoise_check_schema():
+    """jsonschema.validate re-validates the (constant) schema file against the meta-schema on every
+    call (about 45 ms, five times per _load_compilers).  Schema validity is a pure function of the
+    schema text, so the harness memoises it per process; CBI's behaviour is unchanged."""
+    global _memo_installed
+    if _memo_installed:
+        return
+    import jsonschema
+    seen = {}
+    for cls in set(jsonschema.validators._META_SCHEMAS.values()) if hasattr(jsonschema.validators, "_META_SCHEMAS") else []:
+        orig = cls.check_schema.__func__
+
+        def cached(klass, schema, *a, _orig=orig, **k):
+            key = (klass.__name__, json.dumps(schema, sort_keys=True, default=str))
+            if key not in seen:
+                try:
+                    _orig(klass, schema, *a, **k)
+                    seen[key] = None
+                except Exception as e:  # noqa
+                    seen[key] = e
+            if seen[key] is not None:
+                raise seen[key]
+        cls.check_schema = classmethod(cached)
+    _memo_installed = True
+
+
 class _Capture(logging.Handler):
     def __init__(self):
         super().__init__(level=logging.DEBUG)
@@ -382,6 +415,7 @@ class C12(Check):
         super().__init__(tier, seed)
         self._impl_cache = {}
         self._na_seen = set()
+        self._block_of = {}
         self.hist = {"commands": 0, "cmd_spec_na": 0, "cmd_err": 0, "cmd_multi_pass": 0, "cmd_alias": 0, "cmd_loop_or_dangling": 0,
                      "cmd_mode_contrib": 0, "cases_user_invalid": 0, "blocks": {}}
 
@@ -391,12 +425,16 @@ class C12(Check):
         blocks = [("exhaustive_builtin", exhaustive_builtin(self.tier)),
                   ("exhaustive_user", exhaustive_user(self.tier)),
                   ("alias_graphs", alias_cases()),
-                  ("random_tame", [gen_case(self.rng) for _ in range(500 if q else 12000)]),
-                  ("random_odd", [gen_case(self.rng, odd=True) for _ in range(150 if q else 3000)]),
-                  ("random_malformed", [gen_case(self.rng, malformed=True, odd=True) for _ in range(250 if q else 6000)])]
+                  ("random_tame", [gen_case(self.rng) for _ in range(2500 if q else 40000)]),
+                  ("random_odd", [gen_case(self.rng, odd=True) for _ in range(800 if q else 12000)]),
+                  ("random_malformed", [gen_case(self.rng, malformed=True, odd=True) for _ in range(1200 if q else 20000)])]
         out = []
         for n, cs in blocks:
             self.hist["blocks"][n] = len(cs)
+            for c in cs:
+                self._block_of[self.key(c)] = n
+                if any(not d for _, d in c["user"]):
+                    self.hist["cases_user_invalid"] += 1
             out += cs
         return out
 
@@ -408,6 +446,7 @@ class C12(Check):
     # ------------------------------------------------------------ implementation
     def impl(self, case):
         from codebasin import config
+        _memoise_check_schema()
         k = self.key(case)
         root = common.scratch() / "c12"
         if root.exists():
@@ -550,6 +589,10 @@ class C12(Check):
         if k not in self._na_seen:
             self._na_seen.add(k)
             self.hist["cmd_spec_na"] += na
+            b = self._block_of.get(k, "corpus")
+            d = self.hist.setdefault("cmd_spec_na_by_block", {}).setdefault(b, [0, 0])
+            d[0] += na
+            d[1] += len(out)
         return out
 
     def impl_view_for_spec(self, case, ia):
